@@ -211,7 +211,53 @@ def body_ct(case, ctx):
     return r
 
 
-BODIES = {"stats": body_stats, "ct": body_ct}
+def body_bigid(case, ctx):
+    """Zone ids beyond 2**53 (hashed 64-bit ids, cell indexes): "agreement is exact for zone ids" - compared as Python ints, never through a
+    float.  Dask stats and crosstab tables against the NumPy tables of the same rasters."""
+    import xarray as xr
+    from xrspatial.zonal import crosstab, stats
+    zn, vn = dec_arr(case["zones"]), dec_arr(case["values"])
+    r = R(nt=True)
+    r.label("bigid:" + case["what"])
+    zd = xr.DataArray(_dask(zn, case["zchunks"], "C"), dims=["y", "x"])
+    vd = xr.DataArray(_dask(vn, case["vchunks"], "C"), dims=["y", "x"])
+    zx, vx = xr.DataArray(zn, dims=["y", "x"]), xr.DataArray(vn, dims=["y", "x"])
+    if case["what"] == "stats":
+        res, ref = stats(zd, vd, stats_funcs=["count", "max"]), stats(zx, vx, stats_funcs=["count", "max"])
+    else:
+        res, ref = crosstab(zd, vd), crosstab(zx, vx)
+    with _sched(case):
+        df = res.compute() if hasattr(res, "compute") else res
+    got = [int(z) for z in df["zone"].tolist()]
+    exp = sorted(set(int(z) for z in zn.ravel().tolist()))
+    want = [int(z) for z in ref["zone"].tolist()]
+    if want != exp:
+        return r.fail("bigid.numpy_zone_ids", "NumPy table has zone ids %s, the raster holds %s" % (want, exp))
+    if got != exp:
+        return r.fail("bigid.zone_ids_not_exact[%s]" % case["what"], "Dask table has zone ids %s, the raster holds %s (chunks %s / %s)" % (
+            got, exp, case["zchunks"], case["vchunks"]))
+    for c in df.columns:
+        if c == "zone":
+            continue
+        a, b = np.asarray(df[c], dtype="float64"), np.asarray(ref[c], dtype="float64")
+        if not np.array_equal(a, b, equal_nan=True):
+            return r.fail("bigid.value[%s]" % case["what"], "column %r: dask %s vs numpy %s" % (c, a.tolist(), b.tolist()))
+    return r
+
+
+@st.composite
+def bigid_cases(draw):
+    h, w = draw(S.shapes(2, 6))
+    base = draw(st.sampled_from([2 ** 53, 2 ** 62, -(2 ** 60)]))
+    ids = [base + k for k in (1, 2, 3, 5)][:draw(st.integers(2, 4))]
+    zones = draw(S.grid(h, w, ids))
+    values = draw(S.grid(h, w, [0, 1, 2, 3]))
+    zc, vc = draw(chunk_pair(h, w))
+    return {"sub": "bigid", "what": draw(st.sampled_from(["stats", "stats", "ct"])), "zones": {"dtype": "int64", "data": zones},
+            "values": {"dtype": "int32", "data": values}, "zchunks": zc, "vchunks": vc, "scheduler": draw(st.sampled_from(SCHEDS))}
+
+
+BODIES = {"stats": body_stats, "ct": body_ct, "bigid": body_bigid}
 
 
 # ------------------------------------------------------------------ strategies
@@ -322,6 +368,7 @@ def shards(tier):
         out.append(("stats#%d" % i, lambda ctx: drive_hypothesis(ctx, body_stats, stats_cases(side), per_s)))
     for i in range(nc):
         out.append(("ct#%d" % i, lambda ctx: drive_hypothesis(ctx, body_ct, ct_cases(side), per_c)))
+    out.append(("bigid#0", lambda ctx: drive_hypothesis(ctx, body_bigid, bigid_cases(), 30 if tier == "quick" else 400)))
     sizes = [3] if tier == "quick" else [3, 4]
     for n in sizes:
         tot = (2 ** (n - 1)) ** 2
